@@ -23,9 +23,10 @@ def main(tier='quick'):
         f = env['PVC_DUMP_PROVED']
         if os.path.exists(f):
             ids = json.load(open(f)); os.unlink(f)
-            # enforced later: obligations discharged quickly here (margin against a loaded machine), plus those already enforced
-            # before that still discharge (so a slow moment while regenerating does not silently drop an obligation)
-            base[p] = {i: {'tier': tier} for i, secs in ids.items() if stable(i) and (secs < 15.0 or i in prev.get(p, {}))}
+            # enforced later: obligations discharged in under 5 s here (margin against a loaded machine; the budgets are 10 s and more),
+            # plus those already enforced before that still discharge in under 15 s (a slow moment while regenerating does not
+            # silently drop an obligation, a genuinely slow one is not enforced)
+            base[p] = {i: {'tier': tier} for i, secs in ids.items() if stable(i) and (secs < 5.0 or (secs < 15.0 and i in prev.get(p, {})))}
         print(p, 'exit', r.returncode, len(base.get(p, {})), 'stable obligations')
     json.dump(base, open(os.path.join(HERE, 'baseline_obligations.json'), 'w'), indent=0, sort_keys=True)
     return 0
